@@ -292,25 +292,26 @@ Proof.
   rewrite C, G. cbn. apply IH. exact U2.
 Qed.
 
-Theorem spec15_model_partial : forall i, wf_input i = true -> unconfused i = true ->
-  C15_spec.spec i (C15_spec.model i) = true.
+(* histories: the C15 predicate accepts every run of the model *)
+Theorem spec15_hist : forall h, wf_input h = true -> unconfused h = true ->
+  C15_spec.spec_hist h (run_hist h) = true.
 Proof.
-  intros [cl pol ops] W U. cbn [C15_spec.model run_hist C15_spec.spec]. rewrite configure_designated.
+  intros [cl pol ops] W U. cbn [run_hist C15_spec.spec_hist]. rewrite configure_designated.
   exact (spec15_run_model cl W (located (designated (p_kopts pol)) ops) (init pol) U).
 Qed.
 
-Theorem spec15_model_refuted : exists i, wf_input i = true /\ C15_spec.spec i (C15_spec.model i) = false.
+Theorem spec15_hist_refuted : exists h, wf_input h = true /\ C15_spec.spec_hist h (run_hist h) = false.
 Proof. exists refuting_history. split; vm_compute; reflexivity. Qed.
 
 Example spec15_model_partial_nonvacuous :
-  let i := Hist refuting_clients refstore_policy
+  let h := Hist refuting_clients refstore_policy
     [(0, true, Issue Leg "web2" "bob" ["openid"; "offline_access"]);
      (0, true, Exchange Prov (Basic "web" "web-secret") (PRaw (RT 2)) TRefresh
        (Some (PJwt 0 true false (AT 3) "bob" "", TAccess)) TRefresh ["openid"; "drop"] ["web"]);
      (1, true, Exchange Leg (Both "web" "web-secret" "web2") (POpq (AT 5) "bob") TAccess None TId ["openid"] []);
      (0, true, Exchange Leg (Basic "web" "web-secret") (POpq (AT 5) "bob") TAccess None TJwt ["openid"] [])] in
-  wf_input i = true /\ unconfused i = true /\
-  C15_spec.path i (C15_spec.model i) <> 0 /\ C15_spec.spec i (C15_spec.model i) = true.
+  wf_input h = true /\ unconfused h = true /\
+  C15_spec.path (IHist h) (C15_spec.model (IHist h)) <> 0 /\ C15_spec.spec (IHist h) (C15_spec.model (IHist h)) = true.
 Proof. vm_compute. repeat split. discriminate. Qed.
 
 (* request-level statements *)
